@@ -52,3 +52,5 @@ CONSTANTS
  Restore = FALSE
  Regulate_ = TRUE
  OptFlips = {}
+ FreeIdSends = FALSE
+ Msgs = {"m1"}
